@@ -94,7 +94,7 @@ def run_one(x_spec, tname, flags, entry):
     T = target_type(tname, flags)
     x = codec.decode(x_spec)
     if entry == "transform":
-        return oracle.outcome(utype.type_transform, x, T, opts)
+        return oracle.reject_raw(oracle.outcome(utype.type_transform, x, T, opts))
     ns = {"__annotations__": {"v": T}, "__module__": "vf.entries", "__qualname__": "E12"}
     if opts is not None:
         ns["__options__"] = opts
